@@ -74,6 +74,10 @@ CLAIMS["C08"] = ("other", "path enumeration of the continue handler with outcome
   "Decides the decision structure that runs after every hand (pause iff pause predicate, else set up the next hand, no silent path), the definitions of the predicates, that the handler is always scheduled and run, and that the open-game callback does not silently drop except under a count guard whose participants provenance is checked. One genuine wedge (set-up participants are not the alive set the guard counted) is recorded in known_findings.json. Liveness itself is not decided.",
   "DESIGN.md §4 C08, §5 F11", TRUST)
 
+CLAIMS["C09"] = ("other", "typestate of the ready-group protocol over the CFG of Setup (with helper look-through and argument binding), guard dominance in the ready operation, who-may-call of the completion function, wiring of the timeout handler, sibling check of the rebuilt gate",
+  "Decides the protocol the gate drives on its ready group: set-up order with nobody pre-readied, rejection of unknown participants before any signal, a single completion function reachable only as the ready group's completion callback, the timeout wiring of both constructors and the sibling wiring of the rebuilt gate. Exactly-once delivery and supersession under schedules live inside syncsaga and are not decided.",
+  "DESIGN.md §4 C09", TRUST)
+
 REASONS = {}
 
 checks = []
